@@ -15,15 +15,17 @@ from . import C15
 
 TECHNIQUE = ("effect rules: who-may-assign item fields, who-may-construct items, what the rebuild may append; "
              "shape check of the PUSH rendering expression; copy-then-replace discipline on contract objects")
-LEVEL_TEXT = ("Decides that no code can alter a parsed assembly item, that the block rebuild only re-uses original item "
-              "objects or the sequences handed to it, that emitted items are constructed in exactly two modules, that "
-              "PUSH constants are rendered with hex(int(v))[2:] (canonical when 0 <= v < 2^256, which is C03.b's "
-              "obligation), and that contract metadata travels by deep copy with only the code fields replaced. The "
-              "positional preservation of every tag/jump (index arithmetic over run-time lists) is not decided.")
+LEVEL_TEXT = ('Decides that no code can alter a parsed assembly item, that the block rebuild only re-uses original item '
+              'objects or the sequences handed to it, that emitted items are constructed in exactly two modules, that PUSH '
+              "constants are rendered with hex(int(v))[2:] (canonical when 0 <= v < 2^256, which is C03.b's obligation), "
+              'that contract metadata travels by deep copy with only the code fields replaced, and that every block of a '
+              "code section is appended to that section's own list on every path (C09.g). The stitching itself is decided "
+              'on a bounded family by abstract evaluation (C09.f: prefix, 1-3 sub-blocks, suffix, every subset replaced): '
+              'skeleton kept, original items unchanged, replacement operands are the real operands of the input block.')
 EXPLANATION = ("Project-wide enumeration of attribute stores on item fields, of AsmBytecode(...) constructions and of "
                "append/extend calls inside rebuild_optimized_asm_block, each classified by the shape of its argument.")
-NOT_DECIDED = ("that every tag/jump is at the same position after a rebuild (index arithmetic in "
-               "rebuild_optimized_asm_block over run-time lists); pseudo-push operands occurring in the input block")
+NOT_DECIDED = ('positions after a rebuild for blocks outside the family of C09.f (more than three sub-blocks; split '
+               'instructions that are substrings of one another, which the rebuild matches with `in`)')
 ASSUMPTIONS = ["values reaching id_to_asm_bytecode as PUSH constants are ints in [0,2^256) — decided separately by C03.b"]
 
 REBUILD = "solution_generation.optimize_from_sub_blocks.rebuild_optimized_asm_block"
@@ -34,6 +36,7 @@ ALLOWED_CTOR_MODULES = {"sfs_generator.parser_asm", "solution_generation.ids2asm
 
 def rule_a(ctx, out):
     C15.rule_a(ctx, out)
+    C15.rule_b(ctx, out)       # every key of a parsed record reaches the serialised item (round trip by evaluation)
 
 
 def rule_b(ctx, out):
@@ -88,35 +91,53 @@ def _rebuild_flags(ctx, out):
 
 
 def rule_c(ctx, out):
-    f = ctx.func("solution_generation.ids2asm.id_to_asm_bytecode")
-    # under disasm in {PUSH, PUSH data, PUSHIMMUTABLE}: value rendered as hex(int(<record value>))[2:]
-    found = 0
-    for n in own_nodes(f.node):
-        if isinstance(n, ast.If):
-            lits = {x.value for x in ast.walk(n.test) if isinstance(x, ast.Constant) and isinstance(x.value, str)}
-            if "PUSH" in lits:
-                found += 1
-                rend = None
-                for st in n.body:
-                    if isinstance(st, ast.Assign) and isinstance(st.targets[0], ast.Name):
-                        rend = st
-                ok = rend is not None and isinstance(rend.value, ast.Subscript) and isinstance(rend.value.slice, ast.Slice) \
-                    and isinstance(rend.value.slice.lower, ast.Constant) and rend.value.slice.lower.value == 2 and rend.value.slice.upper is None \
-                    and isinstance(rend.value.value, ast.Call) and call_name(rend.value.value) == "hex" \
-                    and isinstance(rend.value.value.args[0], ast.Call) and call_name(rend.value.value.args[0]) == "int"
-                if ok:
-                    src = norm(rend.value.value.args[0].args[0])
-                    out.ok({"render": norm(rend.value), "source": src, "canonical_iff": "0 <= v (no sign, no prefix); < 2^256 by C03.b"})
-                    # the rendered local is what is passed as the item's value
-                    ctor = [c for st in n.body for c in calls_in(st, "AsmBytecode")]
-                    if ctor and all(len(c.args) >= 5 and is_name(c.args[4], rend.targets[0].id) for c in ctor):
-                        out.ok({"item_value": "the canonical rendering"})
-                    else:
-                        out.bad("id_to_asm_bytecode:value-not-the-rendering", "the item is not constructed with the canonical rendering", where(f, n))
-                else:
-                    out.bad("id_to_asm_bytecode:push-not-rendered-canonically", "a PUSH constant is not rendered as hex(int(v))[2:]", where(f, n))
-    if not found:
-        raise AnalysisError("id_to_asm_bytecode: PUSH branch not found")
+    """Constants are rendered canonically.  id_to_asm_bytecode / asm_from_ids are interpreted on specification records of every kind of
+    valued push: a PUSH / PUSH data / PUSHIMMUTABLE record with the integer v gives the operand format(v, 'x') (lower-case hex, no
+    prefix, no leading zeros, "0" for zero) for v in {0, 1, 255, 256, 2^160-1, 2^256-1}; a PUSH0 record gives PUSH "0"; the other kinds
+    keep str(v); an id that names no record is the instruction itself; NOP ids are dropped and nothing else is."""
+    from ..core.interp import ModuleInterp
+    from ..core.minieval import Unsupported, Raised
+    cls = ctx.p.cls("sfs_generator.asm_bytecode.AsmBytecode")
+    afi = ctx.func("solution_generation.ids2asm.asm_from_ids")
+    mi = ModuleInterp(ctx, max_steps=100000)
+    Item = mi.fake_class(cls)
+    mi.extern["AsmBytecode"] = mi.constructor(cls, lambda: Item())
+
+    def built(records, ids):
+        try:
+            return mi.call(afi, {"user_instrs": records}, ids)
+        except Raised as e:
+            return ("raises", e.what)
+        except Unsupported as e:
+            raise AnalysisError(f"asm_from_ids cannot be evaluated abstractly: {e}")
+    for kind in ("PUSH", "PUSH data", "PUSHIMMUTABLE"):
+        for v in (0, 1, 255, 256, 2 ** 160 - 1, 2 ** 256 - 1):
+            got = built([{"id": "P_0", "disasm": kind, "value": [v]}], ["P_0"])
+            want = format(v, "x")
+            if isinstance(got, list) and len(got) == 1 and got[0].disasm == kind and got[0].value == want:
+                out.ok({"record": f"{kind} {v}", "operand": want})
+            else:
+                shown = got if isinstance(got, tuple) else [(g.disasm, g.value) for g in got]
+                out.bad(f"id_to_asm_bytecode:push-not-rendered-canonically:{kind.replace(' ', '')}", f"a {kind} record with the value {v} is emitted as {shown}; the canonical "
+                        f"operand is {want!r}", where(afi))
+    got = built([{"id": "PUSH0_0", "disasm": "PUSH0", "value": [0]}], ["PUSH0_0"])
+    if isinstance(got, list) and len(got) == 1 and (got[0].disasm, got[0].value) == ("PUSH", "0"):
+        out.ok({"record": "PUSH0", "item": "PUSH 0 (spelt by the serialiser according to the flag)"})
+    else:
+        out.bad("id_to_asm_bytecode:push0-record", f"a PUSH0 record is emitted as {got if isinstance(got, tuple) else [(g.disasm, g.value) for g in got]}", where(afi))
+    for kind, v in (("PUSH [tag]", 7), ("PUSHLIB", 1), ("PUSH #[$]", 0), ("PUSH [$]", 2)):
+        got = built([{"id": "Q_0", "disasm": kind, "value": [v]}], ["Q_0"])
+        if isinstance(got, list) and len(got) == 1 and (got[0].disasm, got[0].value) == (kind, str(v)):
+            out.ok({"record": f"{kind} {v}", "operand": str(v)})
+        else:
+            out.bad(f"id_to_asm_bytecode:operand-changed:{kind.replace(' ', '')}", f"a {kind} record with the internal value {v} is emitted as "
+                    f"{got if isinstance(got, tuple) else [(g.disasm, g.value) for g in got]}; the rebuild looks the real operand up under {str(v)!r}", where(afi))
+    got = built([{"id": "ADD_0", "disasm": "ADD"}], ["SWAP1", "NOP", "ADD_0", "NOP", "DUP2", "POP"])
+    names = got if isinstance(got, tuple) else [g.disasm for g in got]
+    if names == ["SWAP1", "ADD", "DUP2", "POP"]:
+        out.ok({"id_seq_to_asm_bytecode": "drops only NOP"})
+    else:
+        out.bad("id_seq_to_asm_bytecode:filter-changed", f"the id sequence SWAP1 NOP ADD_0 NOP DUP2 POP is emitted as {names}", where(afi))
     # the rendered integer is in [0, 2^256): every producer of folded constants stays in the word domain (shared with C03.b)
     from ..core.report import RuleOut
     from . import C03
@@ -126,14 +147,6 @@ def rule_c(ctx, out):
     out.instances += tmp.instances
     out.satisfied += tmp.instances - len(dom)
     out.findings.extend(dom)
-    # NOP filtered, nothing else dropped
-    g = ctx.func("solution_generation.ids2asm.id_seq_to_asm_bytecode")
-    comps = [n for n in own_nodes(g.node) if isinstance(n, ast.ListComp)]
-    okf = comps and all(len(c.generators[0].ifs) == 1 and "NOP" in norm(c.generators[0].ifs[0]) for c in comps)
-    if okf:
-        out.ok({"id_seq_to_asm_bytecode": "drops only NOP"})
-    else:
-        out.bad("id_seq_to_asm_bytecode:filter-changed", "ids are filtered by something else than `!= 'NOP'`", where(g))
 
 
 def rule_d(ctx, out):
@@ -278,7 +291,9 @@ def rule_f(ctx, out):
              ids=["PUSHDATA_0", "PUSHLIB_3"],
              want=[("PUSH data", "a1"), ("PUSHLIB", LIBS[0])]),
     ]
-    SPLITS = [rec("SSTORE"), rec("LOG1")]
+    # the second family uses a split instruction that carries an operand: the front-end names it by its mnemonic alone in the sub-block
+    # list (witnessed: ['PUSH 1', 'ASSIGNIMMUTABLE'] for `PUSH 1 ASSIGNIMMUTABLE ab12`), the item's own text has the operand
+    SPLIT_SETS = [[rec("SSTORE"), rec("LOG1")], [rec("ASSIGNIMMUTABLE", "ab12"), rec("SSTORE")]]
     PREFIX = [rec("tag", "5"), rec("JUMPDEST")]
     SUFFIX = [rec("PUSH [tag]", "9"), rec("JUMP", None, jumpType="[in]")]
 
@@ -290,7 +305,7 @@ def rule_f(ctx, out):
         except Unsupported as e:
             raise AnalysisError(f"{fn.name} cannot be evaluated abstractly: {e}")
     n = 0
-    for k in (1, 2, 3):
+    for SPLITS, k in [(SPLIT_SETS[0], 1), (SPLIT_SETS[0], 2), (SPLIT_SETS[0], 3), (SPLIT_SETS[1], 2), (SPLIT_SETS[1], 3)]:
         for mask in range(2 ** k):
             for with_prefix in (False, True):
                 for with_suffix in (False, True):
@@ -309,7 +324,7 @@ def rule_f(ctx, out):
                     items = [run(bb, dict(r), table) for r in records]
                     if any(isinstance(x, tuple) for x in items):
                         raise AnalysisError(f"build_asm_bytecode raises on a record of the family: {[x for x in items if isinstance(x, tuple)][0]}")
-                    plain = [run(cls.methods["to_plain"], it) for it in items]
+                    plain = [run(cls.methods["to_plain"], it) if not (r_.get("name") == "ASSIGNIMMUTABLE") else "ASSIGNIMMUTABLE" for it, r_ in zip(items, records)]
                     number = dict(table)          # real value -> internal value, as the parser numbered this block
                     sub_list, repl, expected = [], {}, [("orig", j) for j in range(bounds[0][0])]
                     for i in range(k):
@@ -366,7 +381,34 @@ def rule_f(ctx, out):
                         what = "pseudo-push-operand-not-the-real-value" if kind == "new" and g.get("name") == w.get("name") and g.get("name") not in ("PUSH",) \
                             else "replacement-item" if kind == "new" else "original-item-changed"
                         out.bad(f"rebuild:{what}:{w.get('name')}", f"the stitched block emits {g!r} where {w!r} is due ({label})", where(rb))
-    if n < 50:
+    # a block that *starts* with an operand-carrying split instruction: the first sub-block holds that instruction only
+    for replaced in (False, True):
+        for with_prefix in (False, True):
+            table = {}
+            records = (PREFIX if with_prefix else []) + [SPLIT_SETS[1][0]] + SUBS[0]["orig"]
+            items = [run(bb, dict(r), table) for r in records]
+            p0 = len(PREFIX) if with_prefix else 0
+            plain = ["ASSIGNIMMUTABLE" if r_.get("name") == "ASSIGNIMMUTABLE" else run(cls.methods["to_plain"], it) for it, r_ in zip(items, records)]
+            sub_list = [[plain[p0]], plain[p0:]]
+            number = dict(table)
+            spec = [dict(r, value=[number[LIBS[r["value"][0]]]]) if r["disasm"] == "PUSHLIB" else dict(r) for r in SUBS[0]["spec"]]
+            repl = {"blk_1": run(afi, {"user_instrs": spec}, list(SUBS[0]["ids"])) if replaced else None}
+            res = run(rb, Blk("blk", list(items)), sub_list, repl)
+            n += 1
+            label = f"block starting with ASSIGNIMMUTABLE, {'replaced' if replaced else 'nothing replaced'}, prefix {with_prefix}"
+            if isinstance(res, tuple):
+                out.bad(f"rebuild-raises:{res[1]}", f"rebuild_optimized_asm_block raises {res[1]} on a well-formed block ({label})", where(rb))
+                continue
+            got = [run(cls.methods["to_json"], it) for it in res.instructions if isinstance(it, Item)]
+            want = [dict(r) for r in records[:p0 + 1]] + ([{"name": w[0], **({"value": w[1]} if w[1] is not None else {})} for w in SUBS[0]["want"]] if replaced
+                                                          else [dict(r) for r in records[p0 + 1:]])
+            same = len(got) == len(want) and all((g if "begin" in w else {k_: v_ for k_, v_ in g.items() if k_ in ("name", "value")}) == w for g, w in zip(got, want))
+            if same:
+                out.ok({"family_member": label, "emitted_items": len(got)})
+            else:
+                out.bad("rebuild:stream-length" if len(got) != len(want) else "rebuild:original-item-changed:ASSIGNIMMUTABLE", f"the stitched block is "
+                        f"{[g.get('name') for g in got]} where {[w.get('name') for w in want]} is due ({label})", where(rb))
+    if n < 90:
         raise AnalysisError(f"only {n} members of the block family evaluated")
 
 
@@ -439,5 +481,5 @@ RULES = [
     ("C09.c", "PUSH constants rendered canonically", 3, rule_c),
     ("C09.d", "contract/document metadata preserved by copy", 6, rule_d),
     ("C09.g", "every block of a section goes into that section's own list", 4, rule_g),
-    ("C09.f", "stitching of replaced sub-blocks on a bounded block family (by evaluation): skeleton kept, real operands restored", 50, rule_f),
+    ("C09.f", "stitching of replaced sub-blocks on a bounded block family (by evaluation): skeleton kept, real operands restored", 90, rule_f),
 ]
